@@ -130,6 +130,7 @@ def verify(contract, callee_contracts=None, spec_functions=None, options=None):
                 outcomes["return"] = outcomes.get("return", 0) + 1
                 cover.setdefault("return", []).append(list(s.pc))
                 extra["result"] = ctl[1] if ctl[0] == "return" else None
+                s.ghost["__result__"] = extra["result"]
                 for k, post in enumerate(contract.returns):
                     nm = post.name or "post%d" % k
                     ex.obligations.append(Obligation("%s/return/%s" % (contract.qualname, nm), s.pc, spec_clause(post, s, extra), "post", {"path": report["paths"], "finding": post.finding}, props=post.props))
